@@ -349,4 +349,261 @@ theorem initApiChain_decreasing (adv18 : Option ApiKey) (fuel : Nat) (v : Int) :
             · have := this.2 x hx'; omega
         · simp [hc]
 
+/-! ### one broker object, several connections: the MOST RECENT advertisement governs
+
+The broker's advertised range is re-read on every new connection (`brokerCxn.init` → `requestAPIVersions`
+→ `storeVersions`), and the table is kept per broker object, not per connection: a request is negotiated
+against the table of the latest completed ApiVersions exchange on ANY connection of its broker object
+(`handleReqs` serialises the connects and clamps of one object). `latestTable` (Proof/C21.lean) reads that
+table off the events alone.
+
+FULL STATEMENT, for every configuration and every sequence of connects (each answered with an arbitrary key
+table) and requests of one broker object: every request is negotiated against the latest successfully
+received table — `Spec.traceOk (obsRun umax umin none evs) = true`. Proved: `request_uses_latest_table`
+(the outcome of every request, for all sequences), `written_within_latest_advertised` and
+`absent_key_fails_on_latest` (unconditional range / missing-key statements), `never_nil_versions`, and
+`trace_spec_partial` — the executable Spec on the whole history — under the same `ProduceKnown` restriction
+as the single-table theorems (every received table has a usable Produce entry); without it the full
+statement is false already for one connection (`clamp_spec_full_false`). -/
+
+/-- **Every request is clamped against the table of the latest successful ApiVersions exchange of its broker
+object**, for every sequence of connects and requests, whatever was advertised before: the outcome of a run
+splits into the outcomes before the request, the clamp on `load t` for the latest table `t` (the nil
+dereference when there never was one), and the outcomes after. -/
+theorem request_uses_latest_table (umax umin : Option Versions) (hiss : issuesApiVersions umax = true)
+    (pre post : List Ev) (r : Req) :
+    runEvs umax umin none (pre ++ .request r :: post) =
+      runEvs umax umin none pre ++
+        (match latestTable pre.reverse with
+          | some t => EvOut.clamped (clamp (r.toIn (load t) umax umin))
+          | none => EvOut.nilVersions) ::
+        runEvs umax umin (storedAfter umax none pre) post := by
+  rw [runEvs_append, storedAfter_latest umax hiss none pre]
+  cases latestTable pre.reverse <;> rfl
+
+/-- A client pinned before 0.10 (its MaxVersions has no ApiVersions key) never looks at what a broker would
+advertise: every request after the first connect is clamped against the empty table. -/
+theorem request_without_apiversions (umax umin : Option Versions) (hiss : issuesApiVersions umax = false)
+    (resp : List ApiKey) (mid post : List Ev) (r : Req) :
+    runEvs umax umin none (.connect resp :: mid ++ .request r :: post) =
+      runEvs umax umin none (.connect resp :: mid) ++
+        EvOut.clamped (clamp (r.toIn BrokerVersions.empty umax umin)) ::
+        runEvs umax umin (storedAfter umax none (.connect resp :: mid)) post := by
+  have hst : ∀ (es : List Ev) (s : StoredV), s = some BrokerVersions.empty → storedAfter umax s es = some BrokerVersions.empty := by
+    intro es
+    induction es with
+    | nil => intro s hs; exact hs
+    | cons e es ih =>
+      intro s hs
+      rw [storedAfter]
+      apply ih
+      cases e with
+      | connect resp' => simp [stepStored, initCxn, hiss, hs]
+      | request r' => exact hs
+  have h1 : storedAfter umax none (.connect resp :: mid) = some BrokerVersions.empty := by
+    rw [storedAfter]
+    apply hst
+    simp [stepStored, initCxn, hiss, storeVersions]
+  show runEvs umax umin none ((Ev.connect resp :: mid) ++ Ev.request r :: post) = _
+  rw [runEvs_append, h1]
+  rfl
+
+/-- **A written version lies within the range of the MOST RECENT advertisement** (unconditionally, for every
+sequence): if the request after `pre` is written with version `v`, there is a latest table, and `v` respects
+its (last) entry for the key — at most a non-negative advertised max, at least a non-negative advertised min. -/
+theorem written_within_latest_advertised (umax umin : Option Versions) (hiss : issuesApiVersions umax = true)
+    (pre post : List Ev) (r : Req) (v : Int) (wf : ∀ bv, WF (r.toIn bv umax umin))
+    (h : runEvs umax umin none (pre ++ .request r :: post) =
+          runEvs umax umin none pre ++ EvOut.clamped (.ok v) :: runEvs umax umin (storedAfter umax none pre) post) :
+    ∃ t, latestTable pre.reverse = some t ∧
+      ∀ e, t.reverse.find? (fun e => e.key == r.key) = some e → (0 ≤ e.max → v ≤ e.max) ∧ (0 ≤ e.min → e.min ≤ v) := by
+  rw [request_uses_latest_table umax umin hiss] at h
+  have h := (List.cons.inj (List.append_cancel_left h)).1
+  cases hl : latestTable pre.reverse with
+  | none => rw [hl] at h; cases h
+  | some t =>
+    rw [hl] at h
+    simp only [EvOut.clamped.injEq] at h
+    refine ⟨t, rfl, fun e he => ?_⟩
+    have hn := clamp_never_outside (r.toIn (load t) umax umin) v (wf _) h
+    have hf : (r.toIn (load t) umax umin).bv.find (r.toIn (load t) umax umin).key = some e := by
+      simp only [Req.toIn, find_load]; exact he
+    exact ⟨hn.2.2.2.2.1 e hf, hn.2.2.2.2.2.1 e hf⟩
+
+/-- **A key absent from the most recent advertisement fails and nothing is written** (given that table has a
+usable Produce entry — the code's test for "a table was loaded"): `errBrokerTooOld`, or `errUnknownRequestKey`
+when the user's MaxVersions lacks the key too. -/
+theorem absent_key_fails_on_latest (umax umin : Option Versions) (hiss : issuesApiVersions umax = true)
+    (pre : List Ev) (r : Req) (t : List ApiKey) (hl : latestTable pre.reverse = some t)
+    (habs : t.reverse.find? (fun e => e.key == r.key) = none)
+    (hprod : 0 ≤ (load t).maxVersion 0) :
+    stepOut umax umin (storedAfter umax none pre) (.request r) = .clamped .errBrokerTooOld ∨
+    stepOut umax umin (storedAfter umax none pre) (.request r) = .clamped .errUnknownRequestKey := by
+  rw [storedAfter_latest umax hiss none pre, hl]
+  have hf : (load t).maxVersion r.key = -1 := by
+    simp [BrokerVersions.maxVersion, find_load, habs]
+  simp only [stepOut, clamp, clampCore, Req.toIn, hf]
+  split
+  · right; rfl
+  · left
+    have : (0 : Int) ≤ (load t).maxVersion 0 ∧ (-1 : Int) < 0 := ⟨hprod, by decide⟩
+    simp [this]
+
+/-- **The clamp never dereferences a nil table**: once some connection's `init` succeeded — which
+`loadConnection` guarantees before `handleReq` reaches `b.loadVersions()` — no later request meets an
+empty cell, whatever happens in between. -/
+theorem never_nil_versions (umax umin : Option Versions) (pre1 pre2 : List Ev) (resp : List ApiKey) (r : Req)
+    (hok : (initCxn umax (storedAfter umax none pre1) resp).2 = true) :
+    stepOut umax umin (storedAfter umax none (pre1 ++ .connect resp :: pre2)) (.request r) ≠ .nilVersions := by
+  have hs : (storedAfter umax none (pre1 ++ .connect resp :: pre2)).isSome = true := by
+    rw [storedAfter_append, storedAfter]
+    exact storedAfter_isSome umax _ pre2 (initCxn_ok_isSome umax _ resp hok)
+  cases hst : storedAfter umax none (pre1 ++ .connect resp :: pre2) with
+  | none => rw [hst] at hs; cases hs
+  | some bv => simp [stepOut]
+
+/-- The invariant that ties the stored cell to what the broker side has seen (newest first). -/
+def CellInv (umax : Option Versions) (s : StoredV) (seenRev : List Obs) : Prop :=
+  if issuesApiVersions umax then
+    (s = none ∧ latestAdv seenRev = none) ∨
+      ∃ t, latestAdv seenRev = some t ∧ s = some (load t) ∧ 0 ≤ (load t).maxVersion 0
+  else latestAdv seenRev = none ∧ (s = none ∨ s = some BrokerVersions.empty)
+
+theorem trace_spec_from (umax umin : Option Versions) (evs : List Ev) (s : StoredV) (seenRev : List Obs)
+    (hinv : CellInv umax s seenRev)
+    (wf : ∀ r, Ev.request r ∈ evs → ∀ bv, WF (r.toIn bv umax umin))
+    (hp : ∀ resp, Ev.connect resp ∈ evs → resp.isEmpty = false → 0 ≤ (load resp).maxVersion 0) :
+    Spec.traceOkFrom seenRev (obsRun umax umin s evs) = true := by
+  induction evs generalizing s seenRev with
+  | nil => rfl
+  | cons e es ih =>
+    have wf' : ∀ r, Ev.request r ∈ es → ∀ bv, WF (r.toIn bv umax umin) := fun r hr => wf r (List.mem_cons_of_mem _ hr)
+    have hp' : ∀ resp, Ev.connect resp ∈ es → resp.isEmpty = false → 0 ≤ (load resp).maxVersion 0 :=
+      fun resp hr => hp resp (List.mem_cons_of_mem _ hr)
+    rw [obsRun, traceOkFrom_append, Bool.and_eq_true]
+    cases e with
+    | connect resp =>
+      by_cases hiss : issuesApiVersions umax = true
+      · cases hre : resp.isEmpty with
+        | true =>
+          have : obsOf umax umin (.connect resp) (stepOut umax umin s (.connect resp)) = [] := by
+            simp [obsOf, stepOut, initCxn, hiss, hre]
+          rw [this]
+          refine ⟨rfl, ih _ _ ?_ wf' hp'⟩
+          simpa [stepStored, initCxn, hiss, hre] using hinv
+        | false =>
+          have : obsOf umax umin (.connect resp) (stepOut umax umin s (.connect resp)) = [.adv resp] := by
+            simp [obsOf, stepOut, initCxn, hiss, hre]
+          rw [this]
+          refine ⟨by simp [traceOkFrom, obsOk], ih _ _ ?_ wf' hp'⟩
+          simp only [CellInv, hiss, if_true, stepStored, initCxn, hre, storeVersions, List.reverse_cons, List.reverse_nil,
+            List.nil_append, List.cons_append, latestAdv]
+          right
+          exact ⟨resp, rfl, rfl, hp resp (List.mem_cons_self) hre⟩
+      · have hiss' : issuesApiVersions umax = false := by simpa using hiss
+        have : obsOf umax umin (.connect resp) (stepOut umax umin s (.connect resp)) = [] := by
+          simp [obsOf, stepOut, initCxn, hiss']
+        rw [this]
+        refine ⟨rfl, ih _ _ ?_ wf' hp'⟩
+        simp only [CellInv, hiss', Bool.false_eq_true, if_false, stepStored, initCxn, List.reverse_nil, List.nil_append] at hinv ⊢
+        refine ⟨hinv.1, ?_⟩
+        rcases hinv.2 with h | h <;> simp [h, storeVersions]
+    | request r =>
+      cases s with
+      | none =>
+        have : obsOf umax umin (.request r) (stepOut umax umin none (.request r)) = [] := by simp [obsOf, stepOut]
+        rw [this]
+        exact ⟨rfl, ih _ _ (by simpa [stepStored] using hinv) wf' hp'⟩
+      | some bv =>
+        -- the table the Spec is told of, and the single-table theorem on it
+        have hkey : ∃ table : Option BrokerVersions, Stored (r.toIn bv umax umin) table ∧ ProduceKnown (r.toIn bv umax umin) table ∧
+            specBroker table r.key = Spec.brokerAt seenRev r.key := by
+          unfold CellInv at hinv
+          split at hinv
+          · rcases hinv with ⟨h, _⟩ | ⟨t, hl, hs, hp0⟩
+            · cases h
+            · cases hs
+              refine ⟨some (load t), rfl, Or.inr (Or.inl hp0), ?_⟩
+              rw [specBroker_load, Spec.brokerAt, hl]
+          · rcases hinv with ⟨hl, h | h⟩
+            · cases h
+            · cases h
+              exact ⟨none, rfl, Or.inl rfl, by simp [specBroker, Spec.brokerAt, hl]⟩
+        obtain ⟨table, hst, hpk, hbr⟩ := hkey
+        have hspec := clamp_spec_partial (r.toIn bv umax umin) table (wf r (List.mem_cons_self) bv) hst hpk
+        have hb : boundsOf (r.toIn bv umax umin) table =
+            { cmax := r.cmax, pinMax := pinMaxO r.pin, pinMin := pinMinO r.pin, broker := Spec.brokerAt seenRev r.key,
+              umax := specUser umax r.key, umin := specUser umin r.key } := by
+          simp only [boundsOf, coreBounds, Req.toIn, specUser, hbr]
+        rw [hb] at hspec
+        cases hcl : clamp (r.toIn bv umax umin) with
+        | ok v =>
+          rw [hcl] at hspec
+          have : obsOf umax umin (.request r) (stepOut umax umin (some bv) (.request r)) =
+              [.wrote r.key r.cmax (pinMaxO r.pin) (pinMinO r.pin) (specUser umax r.key) (specUser umin r.key) v] := by
+            simp [obsOf, stepOut, hcl]
+          rw [this]
+          refine ⟨by simpa [traceOkFrom, obsOk, Out.written] using hspec, ih _ _ ?_ wf' hp'⟩
+          simpa [stepStored, CellInv, latestAdv] using hinv
+        | errUnknownRequestKey =>
+          rw [hcl] at hspec
+          have : obsOf umax umin (.request r) (stepOut umax umin (some bv) (.request r)) =
+              [.failed r.key r.cmax (pinMaxO r.pin) (pinMinO r.pin) (specUser umax r.key) (specUser umin r.key)] := by
+            simp [obsOf, stepOut, hcl]
+          rw [this]
+          refine ⟨by simpa [traceOkFrom, obsOk, Out.written] using hspec, ih _ _ ?_ wf' hp'⟩
+          simpa [stepStored, CellInv, latestAdv] using hinv
+        | errBrokerTooOld =>
+          rw [hcl] at hspec
+          have : obsOf umax umin (.request r) (stepOut umax umin (some bv) (.request r)) =
+              [.failed r.key r.cmax (pinMaxO r.pin) (pinMinO r.pin) (specUser umax r.key) (specUser umin r.key)] := by
+            simp [obsOf, stepOut, hcl]
+          rw [this]
+          refine ⟨by simpa [traceOkFrom, obsOk, Out.written] using hspec, ih _ _ ?_ wf' hp'⟩
+          simpa [stepStored, CellInv, latestAdv] using hinv
+        | userMinError a b =>
+          rw [hcl] at hspec
+          have : obsOf umax umin (.request r) (stepOut umax umin (some bv) (.request r)) =
+              [.failed r.key r.cmax (pinMaxO r.pin) (pinMinO r.pin) (specUser umax r.key) (specUser umin r.key)] := by
+            simp [obsOf, stepOut, hcl]
+          rw [this]
+          refine ⟨by simpa [traceOkFrom, obsOk, Out.written] using hspec, ih _ _ ?_ wf' hp'⟩
+          simpa [stepStored, CellInv, latestAdv] using hinv
+
+/-- **The executable Spec holds on the whole history of a broker object** — every written request carries the
+highest version within all bounds with the broker's range read from the MOST RECENT ApiVersions response of
+the object, every failed request had no such version — for every configuration and every sequence of
+connects (arbitrary tables) and requests (partial: every received table has a usable Produce entry, as in
+`clamp_spec_partial`). -/
+theorem trace_spec_partial (umax umin : Option Versions) (evs : List Ev)
+    (wf : ∀ r, Ev.request r ∈ evs → ∀ bv, WF (r.toIn bv umax umin))
+    (hp : ∀ resp, Ev.connect resp ∈ evs → resp.isEmpty = false → 0 ≤ (load resp).maxVersion 0) :
+    Spec.traceOk (obsRun umax umin none evs) = true := by
+  apply trace_spec_from umax umin evs none [] ?_ wf hp
+  unfold CellInv
+  split
+  · exact Or.inl ⟨rfl, rfl⟩
+  · exact ⟨rfl, Or.inl rfl⟩
+
+/-- Non-vacuity: a rolling downgrade between two connections of one broker object. Metadata (client max 13):
+the first connection advertises 0..9, the request goes out at v9; the broker comes back older, a second
+connection (any class) advertises 0..5 and no DescribeCluster; Metadata now goes out at v5 — also on the
+old connection — and DescribeCluster fails. The hypotheses of `trace_spec_partial` hold, the Spec accepts
+this history and rejects the one in which the first table keeps being used (v9 after the downgrade, or
+DescribeCluster still written). -/
+def downgradeEvs : List Ev :=
+  [.connect [⟨0, 0, 12⟩, ⟨3, 0, 9⟩, ⟨60, 0, 1⟩], .request { key := 3, cmax := 13 }, .request { key := 60, cmax := 2 },
+   .connect [⟨0, 0, 7⟩, ⟨3, 0, 5⟩], .request { key := 3, cmax := 13 }, .request { key := 60, cmax := 2 }]
+example :
+    runEvs none none none downgradeEvs =
+      [.connected, .clamped (.ok 9), .clamped (.ok 1), .connected, .clamped (.ok 5), .clamped .errBrokerTooOld]
+    ∧ Spec.traceOk (obsRun none none none downgradeEvs) = true
+    ∧ Spec.traceOk [.adv [⟨0, 0, 12⟩, ⟨3, 0, 9⟩, ⟨60, 0, 1⟩], .wrote 3 13 none none .unset .unset 9,
+        .adv [⟨0, 0, 7⟩, ⟨3, 0, 5⟩], .wrote 3 13 none none .unset .unset 9] = false
+    ∧ Spec.traceOk [.adv [⟨0, 0, 12⟩, ⟨3, 0, 9⟩, ⟨60, 0, 1⟩], .adv [⟨0, 0, 7⟩, ⟨3, 0, 5⟩],
+        .wrote 60 2 none none .unset .unset 1] = false
+    ∧ Spec.traceOk [.adv [⟨0, 0, 7⟩, ⟨3, 0, 5⟩], .failed 3 13 none none .unset .unset,
+        .adv [⟨0, 0, 12⟩, ⟨3, 0, 9⟩], .failed 3 13 none none .unset .unset] = false := by
+  decide
+
 end Props.C21
